@@ -11,6 +11,7 @@ SOLVE = "jinns/solver/_solve.py"
 VAL = "jinns/validation/_validation.py"
 
 ZHDR = """From Coq Require Import ZArith Bool List.
+From JV Require Import Kit.GenTypes.
 Import ListNotations.
 Open Scope Z_scope.
 Definition int32_max : Z := 2147483647.
@@ -195,3 +196,133 @@ def _(repo):
         f"Definition gen_wiring_ok_param : bool := {'true' if ok else 'false'}.",
         f"Definition gen_init_idx_param (bs : Z) : Z := {zexpr(iv, {'jnp.iinfo(jnp.int32).max': 'int32_max', 'self.param_batch_size': 'bs'})}.",
     ])
+
+
+# ---------------------------------------------------------------- cartesian products (C14)
+@anchor("G_datagen", "cartesian")
+def _(repo):
+    mod = parse(repo, DG)
+    f = find_func(mod, "make_cartesian_product")
+    if [a.arg for a in f.args.args] != ["b1", "b2"]:
+        raise Untranslatable("arguments of make_cartesian_product changed")
+    n1 = ast.unparse(one(assigns(f, "n1"), "n1")); n2 = ast.unparse(one(assigns(f, "n2"), "n2"))
+    if (n1, n2) != ("b1.shape[0]", "b2.shape[0]"):
+        raise Untranslatable("n1/n2 are not the leading sizes")
+    v1 = ast.unparse(one(assigns(f, "b1"), "b1")); v2 = ast.unparse(one(assigns(f, "b2"), "b2"))
+    # how each factor is expanded: "repeat by the other's size" / "tile by the other's size"
+    def mode(v, me, other_n):
+        if v == f"jnp.repeat({me}, {other_n}, axis=0)":
+            return "ExpRepeat"
+        if v.startswith(f"jnp.tile({me}, reps=({other_n},)"):
+            return "ExpTile"
+        raise Untranslatable("unknown expansion " + v)
+    m1, m2 = mode(v1, "b1", "n2"), mode(v2, "b2", "n1")
+    r = ast.unparse(one(returns(f), "return"))
+    if r == "jnp.concatenate([b1, b2], axis=1)":
+        order = "true"
+    elif r == "jnp.concatenate([b2, b1], axis=1)":
+        order = "false"
+    else:
+        raise Untranslatable("unknown return " + r)
+    return (f"(* b1 = {v1}; b2 = {v2}; return {r} *)\n"
+            f"Definition gen_cart_first : expansion := {m1}.\nDefinition gen_cart_second : expansion := {m2}.\n"
+            f"Definition gen_cart_first_then_second : bool := {order}.")
+
+
+@anchor("G_datagen", "nonstatio_get_batch")
+def _(repo):
+    mod = parse(repo, DG)
+    f = find_func(mod, "get_batch", "CubicMeshPDENonStatio")
+    body = strip_doc(f.body)
+    draws = [ast.unparse(s.value) for s in body[:3] if isinstance(s, ast.Assign)]
+    order_ok = draws == ["self.inside_batch()", "new.border_batch()", "new.temporal_batch()"]
+    tgt = [ast.unparse(s.targets[0]) for s in body[:3] if isinstance(s, ast.Assign)]
+    order_ok = order_ok and tgt == ["(new, x)", "(new, dx)", "(new, t)"]
+    src = ast.unparse(f)
+    inside_cart = "t_x = make_cartesian_product(t, x)" in src
+    inside_pair = "t_x = jnp.concatenate([t, x], axis=1)" in src
+    iff = [s for s in body if isinstance(s, ast.If) and ast.unparse(s.test) == "new.cartesian_product"]
+    c0 = one(iff, "if new.cartesian_product")
+    branch_ok = ast.unparse(c0.body[0]) == "t_x = make_cartesian_product(t, x)" and ast.unparse(c0.orelse[0]) == "t_x = jnp.concatenate([t, x], axis=1)"
+    bo = [s for s in ast.walk(f) if isinstance(s, ast.If) and ast.unparse(s.test) == "new.cartesian_product or new.dim == 1"]
+    b0 = one(bo, "border if")
+    border_ok = (ast.unparse(b0.body[0]) == "t_dx = make_cartesian_product(t_, dx)" and ast.unparse(b0.orelse[0]) == "t_dx = jnp.concatenate([t_, dx], axis=1)"
+                 and "t_ = jnp.repeat(t_, dx.shape[-1], axis=2)" in src and "t_ = t.reshape(new.temporal_batch_size, 1, 1)" in src)
+    ret = ast.unparse(one(returns(f), "return")).replace(" ", "")
+    ret_ok = ret == "(new,PDENonStatioBatch(times_x_inside_batch=t_x,times_x_border_batch=t_dx))"
+    return (f"(* draws: {draws} *)\n"
+            f"Definition gen_nonstatio_draw_order_ok : bool := {'true' if order_ok else 'false'}.\n"
+            f"Definition gen_nonstatio_inside_ok : bool := {'true' if (inside_cart and inside_pair and branch_ok) else 'false'}.\n"
+            f"Definition gen_nonstatio_border_ok : bool := {'true' if border_ok else 'false'}.\n"
+            f"Definition gen_nonstatio_return_ok : bool := {'true' if ret_ok else 'false'}.")
+
+
+# ---------------------------------------------------------------- loaders (C15)
+def tr_block(stmts, cur, target, classify, test_env):
+    """sequential semantics of a statement list w.r.t. one assigned target -> Coq term.
+    Assignments to `target` update the current value, `raise` aborts with PErr, if/elif/else
+    branch; everything else is skipped."""
+    if not stmts:
+        return cur
+    s, rest = stmts[0], stmts[1:]
+    if isinstance(s, ast.Assign) and len(s.targets) == 1 and ast.unparse(s.targets[0]) == target:
+        return tr_block(rest, classify(s.value), target, classify, test_env)
+    if isinstance(s, ast.Raise):
+        return "PErr"
+    if isinstance(s, ast.If):
+        t = zexpr(s.test, test_env)
+        return (f"(if {t} then {tr_block(list(s.body) + rest, cur, target, classify, test_env)} "
+                f"else {tr_block(list(s.orelse) + rest, cur, target, classify, test_env)})")
+    if isinstance(s, (ast.Assign, ast.Expr, ast.AugAssign)):
+        return tr_block(rest, cur, target, classify, test_env)
+    raise Untranslatable("statement outside the grammar: " + ast.unparse(s)[:60])
+
+
+@anchor("G_datagen", "param_store")
+def _(repo):
+    mod = parse(repo, DG)
+    f = find_func(mod, "generate_data", "DataGeneratorParameter")
+    loop = one([s for s in f.body if isinstance(s, ast.For) and ast.unparse(s.target) == "k"], "for k in all_keys")
+    if ast.unparse(loop.iter) != "all_keys" or ast.unparse(one(assigns(f, "all_keys"), "all_keys")) != "set().union(self.param_ranges, self.user_data)":
+        raise Untranslatable("key set changed")
+
+    def classify(v):
+        u = ast.unparse(v)
+        if u == "self.user_data[k]":
+            return "PTable"
+        if u == "self.user_data[k][:, None]":
+            return "PTableAsColumn"
+        if u.startswith("jax.random.uniform(") and "minval=xmin" in u and "maxval=xmax" in u:
+            return "PRangeUniform"
+        if "jnp.arange" in u and u.endswith("[:, None]"):
+            return "PRangeGrid"
+        raise Untranslatable("unknown store expression " + u)
+    env = {"self.user_data and k in self.user_data.keys()": "has_table",
+           "self.user_data[k].shape == (self.n, 1)": "shape_n1",
+           "self.user_data[k].shape == (self.n,)": "shape_n",
+           "self.method == 'grid'": "grid", "self.method == 'uniform'": "(negb grid && uniform)"}
+    body = tr_block(list(loop.body), "PUnset", "param_n_samples[k]", classify, env)
+    return ("Definition gen_param_store (has_table shape_n1 shape_n grid uniform : bool) : pstore :=\n  " + body + ".")
+
+
+@anchor("G_datagen", "obs_gather")
+def _(repo):
+    mod = parse(repo, DG)
+    f = find_func(mod, "obs_batch", "DataGeneratorObservations")
+    sl = one(calls_to(f, "jax.lax.dynamic_slice"), "dynamic_slice")
+    idxname = one([ast.unparse(n.targets[0]) for n in ast.walk(f) if isinstance(n, ast.Assign) and n.value is sl], "index variable")
+    takes = calls_to(f, "jnp.take")
+    srcs = sorted(ast.unparse(t.args[0]) for t in takes)
+    same = all(ast.unparse(t.args[1]) == idxname and ast.unparse(kwarg(t, "axis")) == "0" for t in takes)
+    d = one([n for n in ast.walk(f) if isinstance(n, ast.Dict)], "batch dict")
+    keys = [k.value for k in d.keys]
+    vals = [ast.unparse(v) for v in d.values]
+    ok = (same and srcs == ["a", "new.observed_pinn_in", "new.observed_values"] and keys == ["pinn_in", "val", "eq_params"]
+          and "new.observed_pinn_in" in vals[0] and "new.observed_values" in vals[1] and vals[2].startswith("jax.tree_util.tree_map(lambda a: jnp.take(a,") and vals[2].rstrip(")").endswith("new.observed_eq_params"))
+    mp = find_func(mod, "obs_batch", "DataGeneratorObservationsMultiPINNs")
+    msrc = ast.unparse(mp)
+    mok = ("lambda a: a.get_batch() if a is not None else {}" in msrc and "lambda a: a[0]" in msrc and "lambda a: a[1]" in msrc
+           and "eqx.tree_at(lambda m: m.data_gen_obs, self, new_attribute)" in msrc)
+    return (f"(* index variable {idxname}; tables {srcs}; keys {keys} *)\n"
+            f"Definition gen_obs_gather_same_indices : bool := {'true' if ok else 'false'}.\n"
+            f"Definition gen_multi_obs_wiring : bool := {'true' if mok else 'false'}.")
